@@ -116,7 +116,31 @@ fn errno_name(e: i32) -> &'static str {
 #[derive(Clone, Debug, PartialEq)]
 enum Pre {
     Absent,
+    /// A previous object file.
     Sentinel,
+    /// Destination absent, but a longer stale `<dest>.tmp` is lying around.
+    StaleTmp,
+    /// Destination is a symbolic link to a longer previous object file.
+    Symlink,
+}
+
+impl Pre {
+    fn name(&self) -> &'static str {
+        match self {
+            Pre::Absent => "absent",
+            Pre::Sentinel => "present",
+            Pre::StaleTmp => "stale_tmp",
+            Pre::Symlink => "symlink",
+        }
+    }
+    fn from_name(s: &str) -> Pre {
+        match s {
+            "present" => Pre::Sentinel,
+            "stale_tmp" => Pre::StaleTmp,
+            "symlink" => Pre::Symlink,
+            _ => Pre::Absent,
+        }
+    }
 }
 
 /// Place one out-of-range label reference at statement `k`: everything before emits, `k` fails.
@@ -168,7 +192,8 @@ enum DestState {
 }
 
 fn dest_state(path: &std::path::Path) -> DestState {
-    match std::fs::symlink_metadata(path) {
+    // Through symbolic links: the property speaks of the destination path
+    match std::fs::metadata(path) {
         Err(_) => DestState::Absent,
         Ok(m) if m.is_dir() => DestState::Directory,
         Ok(m) if m.is_file() => match std::fs::read(path) {
@@ -202,6 +227,20 @@ fn compile_once(setup: &Setup, fault: &Fault) -> (Option<(String, String)>, Proc
         (Pre::Sentinel, _) => {
             std::fs::write(&dest, SENTINEL).expect("sentinel");
             Some(SENTINEL.to_vec())
+        }
+        (Pre::StaleTmp, _) => {
+            let mut tmp = dest.as_os_str().to_owned();
+            tmp.push(".tmp");
+            let junk: Vec<u8> = std::iter::repeat(b"STALE-TEMPORARY-FILE ".iter().copied()).flatten().take(4096).collect();
+            std::fs::write(std::path::PathBuf::from(tmp), junk).expect("stale tmp");
+            None
+        }
+        (Pre::Symlink, _) => {
+            let target = out_dir.join("previous-object.bin");
+            let old: Vec<u8> = std::iter::repeat(SENTINEL.iter().copied()).flatten().take(3000).collect();
+            std::fs::write(&target, &old).expect("symlink target");
+            std::os::unix::fs::symlink(&target, &dest).expect("symlink");
+            Some(old)
         }
         (Pre::Absent, _) => None,
     };
@@ -272,7 +311,7 @@ fn compile_once(setup: &Setup, fault: &Fault) -> (Option<(String, String)>, Proc
     let detail = format!(
         "compile under fault {:?} (destination before: {}): {} and destination {}; stderr: {:?}",
         fault,
-        if before.is_some() { "present" } else { "absent" },
+        setup.pre.name(),
         proc_.label(),
         state,
         String::from_utf8_lossy(&proc_.stderr).lines().last().unwrap_or("")
@@ -358,7 +397,12 @@ fn build(rng: &mut Rng) -> (Program, bool, Pre, &'static str) {
         plant_failure(&mut program, k, width);
         family = "assembly_failure_at_k";
     }
-    let pre = if rng.coin() { Pre::Sentinel } else { Pre::Absent };
+    let pre = match rng.below(8) {
+        0..=2 => Pre::Sentinel,
+        3..=5 => Pre::Absent,
+        6 => Pre::StaleTmp,
+        _ => Pre::Symlink,
+    };
     (program, stack, pre, family)
 }
 
@@ -390,7 +434,7 @@ impl Check for C08 {
         J::obj()
             .set("program", scn::program_to_json(&program))
             .set("stack", stack)
-            .set("prestate", if pre == Pre::Sentinel { "present" } else { "absent" })
+            .set("prestate", pre.name())
             .set("family", family)
             .set("faults", "sweep")
             .set("sweep_seed", J::Str(format!("{:016x}", rng.next_u64())))
@@ -418,7 +462,7 @@ impl Check for C08 {
         let setup = Setup {
             source,
             stack,
-            pre: if scenario.get_str("prestate") == Some("present") { Pre::Sentinel } else { Pre::Absent },
+            pre: Pre::from_name(scenario.get_str("prestate").unwrap_or("absent")),
             full,
         };
         let faults: Vec<Fault> = match scenario.get("faults") {
@@ -470,11 +514,12 @@ impl Check for C08 {
             }
             _ => {}
         }
-        if setup.pre == Pre::Sentinel {
-            report.hit("probe:destination_pre_existing");
-        } else {
-            report.hit("probe:destination_absent");
-        }
+        report.hit(match setup.pre {
+            Pre::Sentinel => "probe:destination_pre_existing",
+            Pre::Absent => "probe:destination_absent",
+            Pre::StaleTmp => "probe:stale_temporary_file_present",
+            Pre::Symlink => "probe:destination_is_symlink",
+        });
         report.nontrivial = faults.len() >= 2 || matches!(scenario.get("faults"), Some(J::Arr(_)));
         let shape = format!(
             "{}|{}|{:?}|{}",
@@ -501,7 +546,7 @@ impl Check for C08 {
                 full: assemble_words(&source, stack).map(|w| words_to_bytes(&w)),
                 source,
                 stack,
-                pre: if scenario.get_str("prestate") == Some("present") { Pre::Sentinel } else { Pre::Absent },
+                pre: Pre::from_name(scenario.get_str("prestate").unwrap_or("absent")),
             };
             let seed = scenario
                 .get_str("sweep_seed")
@@ -524,7 +569,7 @@ impl Check for C08 {
                 out.push(scenario.clone().set("faults", J::Arr(vec![b.to_json()])));
             }
         }
-        if scenario.get_str("prestate") == Some("present") {
+        if scenario.get_str("prestate") != Some("absent") {
             out.push(scenario.clone().set("prestate", "absent"));
         }
         out
@@ -560,6 +605,8 @@ impl Check for C08 {
             "fault:dest-is-dir",
             "probe:destination_pre_existing",
             "probe:destination_absent",
+            "probe:stale_temporary_file_present",
+            "probe:destination_is_symlink",
         ]
     }
 }
